@@ -1,13 +1,82 @@
-"""C06 for improvement envs / selection environments (filled in by mc/sched.py and mc/select.py)."""
+"""C06 for the linked-list checkers of the improvement environments (TSP k-opt, PDP ruin-repair):
+ALL successor arrays over n <= 5 nodes (n^n of them) are fed to check_solution_validity as `rec_best`.
+Expected: every valid tour (single cycle through all nodes; PDP: pickups before deliveries) is accepted; every
+array with a missing / duplicated node (non-permutation) is rejected; for PDP every single cycle with a delivery
+before its pickup is rejected.  Permutations made of several sub-cycles are outside the property's list
+('missing or duplicated customer') and only counted."""
+from __future__ import annotations
 
+import itertools
+import os
 
-def run(tier):
-    return []
+import torch
+from tensordict import TensorDict
+
+from ..core import Partial, pmap
+from .c09 import cycle_order, make_env, precedence_ok
+
+PID = "C06"
 
 
 def env_keys():
-    return []
+    only = os.environ.get("VERIF_ONLY")
+    return [k for k in ("tsp_kopt", "pdp_ruin_repair") if not only or only in k]
+
+
+def call(env, recs):
+    td = TensorDict(dict(rec_best=torch.tensor(recs, dtype=torch.long)), batch_size=[len(recs)])
+    try:
+        env.check_solution_validity(td)
+        return None
+    except Exception as e:  # noqa: BLE001
+        return e
+
+
+def unit(item):
+    key, n = item
+    kind = "tsp" if key == "tsp_kopt" else "pdp"
+    env = make_env(kind, n)
+    p = Partial()
+    valid, invalid, other = [], [], 0
+    for rec in itertools.product(range(n), repeat=n):
+        rec = list(rec)
+        p.add(evaluations=1, states=1)
+        is_perm = sorted(rec) == list(range(n))
+        order = cycle_order(rec)
+        if order is not None and (kind == "tsp" or precedence_ok(order)):
+            valid.append(rec)
+        elif not is_perm or (order is not None and kind == "pdp"):
+            invalid.append(rec)
+        else:
+            other += 1
+    p.add(not_demanded=other, distinct_count=len(valid) + len(invalid), transitions=len(valid) + len(invalid))
+    if valid and call(env, valid) is not None:
+        for rec in valid:
+            e = call(env, [rec, rec])
+            if e is not None:
+                p.violation(dict(property=PID, env=key, config="", observable="checker_rejects_feasible", trigger="valid_tour"), dict(kind="linked", env=key, n=n, rec=rec), f"{key}: checker rejects the valid tour {rec}: {type(e).__name__}: {str(e)[:60]}")
+    for rec in invalid:
+        e = call(env, [rec, rec])
+        p.outcome(f"{key}|{e is None}")
+        if e is None:
+            trig = "missing_or_duplicated_node" if sorted(rec) != list(range(n)) else "delivery_before_pickup"
+            p.violation(dict(property=PID, env=key, config="", observable="checker_accepts_infeasible", trigger=trig), dict(kind="linked", env=key, n=n, rec=rec), f"{key}: checker accepts the invalid successor array {rec} ({trig})")
+    p.sample(dict(env=key, n=n, valid_tours=len(valid), invalid_demanded=len(invalid), multi_cycle_permutations_not_demanded=other), cap=1)
+    return p
+
+
+def run(tier):
+    items = []
+    for k in env_keys():
+        for n in ((3, 5) if k == "pdp_ruin_repair" else (3, 4, 5)):
+            items.append((k, n))
+    return pmap(unit, items)
 
 
 def replay(rec):
-    return False, "unknown replay kind"
+    kind = "tsp" if rec["env"] == "tsp_kopt" else "pdp"
+    env = make_env(kind, rec["n"])
+    e = call(env, [rec["rec"], rec["rec"]])
+    order = cycle_order(rec["rec"])
+    ok = order is not None and (kind == "tsp" or precedence_ok(order))
+    return (ok and e is not None) or (not ok and e is None), f"oracle valid={ok}; checker: {'accepts' if e is None else type(e).__name__}"
